@@ -15,7 +15,11 @@
 //!  * `expiry0`     lock timeout 0 s: after 5 ms the second writer must go through.
 //!  * `expiry1`     lock timeout 1 s: refusal observed at once (counted, not required), success
 //!                  required after 1.3 s.
+//!  * `budget`      one transaction on an engine whose ordered-index key budget (max_btree_entries) is
+//!                  1..6: some of its statements are refused half-way with ResultTooLarge; after the
+//!                  rollback every read must be what it was before begin_transaction.
 
+mod budget;
 mod expiry;
 mod gen;
 mod model;
@@ -27,7 +31,7 @@ fn main() {
     main_for(PropDef {
         id: "C09",
         level: "exploration",
-        rule: "interleave: a program of <=40 (quick) / <=60 (thorough) operations over <=4 concurrently open transactions, non-transactional statements, finished-handle calls and index DDL on two tables t and w of the same shape (a Int 0..3, b nullable Int 0..2, s String of 3, plus _id; each column of each table draws no / hash / btree / both indexes; 3 of 4 statements address t); non-trivial = the program contains a rollback of a transaction that executed >= 2 different kinds of effective statements (insert / update of >=1 row / delete of >=1 row) on a table that has at least one index at that moment, or a statement that was refused with LockConflict. expiry0/expiry1: two writers on overlapping rows (or, in 20%, on equal row ids of the other table) with a 0 s / 1 s lock timeout; non-trivial = a LockConflict was observed before the sleep (expiry1 only; expiry0 makes no first attempt). distinct = distinct generated case (hash of its JSON).",
+        rule: "interleave: a program of <=40 (quick) / <=60 (thorough) operations over <=4 concurrently open transactions, non-transactional statements, finished-handle calls and index DDL on two tables t and w of the same shape (a Int 0..3, b nullable Int 0..2, s String of 3, plus _id; each column of each table draws no / hash / btree / both indexes; 3 of 4 statements address t); non-trivial = the program contains a rollback of a transaction that executed >= 2 different kinds of effective statements (insert / update of >=1 row / delete of >=1 row) on a table that has at least one index at that moment, or a statement that was refused with LockConflict. expiry0/expiry1: two writers on overlapping rows (or, in 20%, on equal row ids of the other table) with a 0 s / 1 s lock timeout; non-trivial = a LockConflict was observed before the sleep (expiry1 only; expiry0 makes no first attempt). budget: one transaction of 1-5 statements on an engine with max_btree_entries 1..6, rolled back; non-trivial = at least one statement was refused with ResultTooLarge. distinct = distinct generated case (hash of its JSON).",
         assumptions: vec![
             "single thread; statements of different transactions interleave at statement granularity (each tx_* call is one step)",
             "the table image is physical (uncommitted changes in place, as the anchored mechanism describes); what tx_select shows of another open transaction's changes is not checked",
@@ -51,6 +55,7 @@ fn main() {
             PropPart::new("expiry1", 192, 1920, |_| gen::exp_strategy(), |c, ctx| expiry::exp_check(c, ctx, 1, 1300, true))
                 .shrink_iters(8)
                 .boxed(),
+            PropPart::new("budget", 20_000, 400_000, |_| budget::strategy(), budget::check).boxed(),
         ],
         children: vec![],
     });
